@@ -32,6 +32,7 @@ CODES = {
     1: "model does not predict the command / reconcile",
     10: "a command changed something other than its documented annotation or condition",
     11: "a command acted although its precondition does not hold",
+    14: "a command was refused although its precondition holds and what it asks for is not in place yet",
     13: "after `canary fail` the replica set does not read as failed (an earlier Canary-Failed condition that is not True shadows the one written): no rollback follows",
     12: "the annotations a command leaves do not mean what the command says in the controllers' reading (e.g. paused while canary-unpaused stays true)",
     # the reconciles that follow a command: monitors of C08 (+20), C05 (+30), C07 (+50)
@@ -206,6 +207,22 @@ def generate(rng, tier, stats):
         ops += histgen.rollout_ops(rng, 2)
         c["ops"] = ops
         wprop.bump(stats, "command on a re-used replica set (active before, canary now)", cm)
+        out.append(c)
+    # (f) a command that lands in the middle of a replica-set reconcile (after its List of the pods): the sync goes on with
+    # what it read; its status write meets a conflict when the command changed the replica set (canary fail); the next
+    # reconciles obey the command
+    for _ in range(8 if tier == "quick" else 120):
+        n = rng.choice([2, 3, 4])
+        c = histgen.gen_history(rng, None, n=n, canary=True, length=0)
+        ops = c["ops"] + histgen.rollout_ops(rng, 2) + [histgen.edit("ExtendedDaemonSet", histgen.NS, histgen.EDS, "image:img:2")]
+        ops += histgen.rollout_ops(rng, rng.choice([2, 3]))
+        cm = rng.choice(["canary_fail", "canary_fail", "canary_pause", "canary_validate"])
+        op = histgen.rec_all_ers(rng)
+        op["faults"] = {"mid_cmd": "%s:%s" % (cm, histgen.EDS)}
+        ops += [K.sleep(11), op, histgen.rec_eds(), histgen.rec_eds(), histgen.rec_all_ers(rng), histgen.rec_eds()]
+        ops += histgen.rollout_ops(rng, 2)
+        c["ops"] = ops
+        wprop.bump(stats, "command landing in the middle of a replica-set reconcile", cm)
         out.append(c)
     # (e) the long way round to a canary that carries a Canary-Failed condition which is False: B fails as a canary; the
     # canary strategy is taken out and B's template applied again (B becomes active at once: its failed mark is reset to
